@@ -4,15 +4,17 @@
    Format wrappers with string / css-map styles in both style modes (inline style attribute, or
    class names c0, c1, ... with the class list), Cell and ColSpan in table cells, Link wrappers and
    the http:// https:// host: link forms of strings.
-   Not modelled (covered by the correspondence run only): custom renderers, closure styles, table
-   formats (style key "table"), File values, nil, ToHtmlInterface values, error returns. *)
+   A closure style whose evaluation fails (SCloErr) is the modelled source of errors.
+   Not modelled (covered by the correspondence run only): custom renderers, closure styles that succeed, table
+   formats (style key table), File values, nil, ToHtmlInterface values, errors of lazy list elements. *)
 From P2 Require Import Base.Prelude Exp.Json Exp.Xml.
 Local Open Scope N_scope.
 
 Inductive sty :=
 | SNone
 | SStr (s : str)
-| SMap (l : list (str * str)).      (* css map: key, value as text (String / strconv.Itoa of an Int) *)
+| SMap (l : list (str * str))      (* css map: key, value as text (String / strconv.Itoa of an Int) *)
+| SCloErr.                          (* a closure style with one argument whose evaluation returns an error *)
 
 Inductive hval :=
 | HS (s : str)                      (* any scalar but Float, through ToString *)
@@ -53,7 +55,7 @@ Definition replace_us (k : str) : str := map (fun c => if c =? 95 then 45 else c
 (* toStyleStr *)
 Definition style_str (st : sty) : option str :=
   match st with
-  | SNone => None
+  | SNone | SCloErr => None
   | SStr s => Some s
   | SMap l =>
       match l with
@@ -67,7 +69,7 @@ Definition style_str (st : sty) : option str :=
 (* hasKey(style, "plainList") *)
 Definition has_plain (st : sty) : bool :=
   match st with
-  | SNone => false
+  | SNone | SCloErr => false
   | SStr s => str_eqb s s_plainList
   | SMap l => existsb (fun kv => str_eqb (fst kv) s_plainList) l
   end.
@@ -114,120 +116,153 @@ Definition html_string (inline : bool) (s : str) (st : sty) (cls : list str) : l
 
 Definition more_td : list op := [OOpen s_td; OWrite s_more; OClose].
 
+(* the outcome of toHtml: the calls issued and the class list; None = toHtml returns an error *)
+Definition res : Type := option (list op * list str).
+
+Definition bind (r : res) (k : list op -> list str -> res) : res :=
+  match r with
+  | Some (o, cls) => k o cls
+  | None => None
+  end.
+
+Definition is_HL (v : hval) : bool := match v with HL _ => true | _ => false end.
+
+(* the loops of toHtml over list elements; [td] is toTD, [each] toHtml with no style.
+   An error of an element ends the loop with that error before the cut-off flag is looked at. *)
+Section Loops.
+Variable maxl : N.
+Variable td : hval -> list str -> res.
+
+(* simpleListExporter.add for the elements of a list *)
+Fixpoint simple_rows (l : list hval) (i : N) (cls : list str) : res :=
+  match l with
+  | [] => Some ([], cls)
+  | x :: r =>
+      let num := [OOpen s_td; OWrite (itoa i); OWrite [46]; OClose] in
+      if i <=? maxl then
+        bind (td x cls) (fun o cls1 =>
+        bind (simple_rows r (i + 1) cls1) (fun os cls2 =>
+        Some (OOpen s_tr :: num ++ o ++ OClose :: os, cls2)))
+      else Some (OOpen s_tr :: num ++ more_td ++ [OClose], cls)
+  end.
+
+(* the cells of one table row *)
+Fixpoint table_cells (c : list hval) (col : N) (cls : list str) : res :=
+  match c with
+  | [] => Some ([], cls)
+  | y :: c' =>
+      if col <=? maxl then
+        bind (td y cls) (fun o cls1 =>
+        bind (table_cells c' (col + 1) cls1) (fun os cls2 =>
+        Some (o ++ os, cls2)))
+      else Some (more_td, cls)
+  end.
+
+(* tableExporter.add for the rows of a table *)
+Fixpoint table_rows (l : list hval) (row : N) (cls : list str) : res :=
+  match l with
+  | [] => Some ([], cls)
+  | x :: r =>
+      if row <=? maxl then
+        bind (match x with
+              | HL cols => table_cells cols 1 cls
+              | _ => if 1 <=? maxl then td x cls else Some (more_td, cls)
+              end) (fun cells cls1 =>
+        bind (table_rows r (row + 1) cls1) (fun os cls2 =>
+        Some (OOpen s_tr :: cells ++ OClose :: os, cls2)))
+      else Some (OOpen s_tr :: more_td ++ [OClose], cls)
+  end.
+
+End Loops.
+
+(* the elements of a plainList *)
+Section Plain.
+Variable each : hval -> list str -> res.
+Fixpoint plain_each (l : list hval) (cls : list str) : res :=
+  match l with
+  | [] => Some ([], cls)
+  | x :: r =>
+      bind (each x cls) (fun o cls1 =>
+      bind (plain_each r cls1) (fun os cls2 =>
+      Some (o ++ os, cls2)))
+  end.
+End Plain.
+
+(* the rows of a map: key cell, value cell (already applied to the value, waiting for the class list) *)
+Fixpoint map_rows (l : list (str * (list str -> res))) (cls : list str) : res :=
+  match l with
+  | [] => Some ([], cls)
+  | (k, f) :: r =>
+      bind (f cls) (fun o cls1 =>
+      bind (map_rows r cls1) (fun os cls2 =>
+      Some (OOpen s_tr :: OOpen s_td :: OWrite k :: OWrite [58] :: OClose :: o ++ OClose :: os, cls2)))
+  end.
+
 Section ToHtml.
 Variable maxl : N.
 Variable inline : bool.
 
-Definition is_HL (v : hval) : bool := match v with HL _ => true | _ => false end.
+(* toTD(d), given toHtml *)
+Definition to_td_with (html : hval -> sty -> list str -> res) (d : hval) (cls : list str) : res :=
+  match d with
+  | HFmt cell cs fst_ inner =>
+      let span := if 1 <? cs then [OAttr s_colspan (itoa cs)] else [] in
+      if is_HL inner && negb cell then
+        bind (html inner fst_ cls) (fun o cls1 => Some (OOpen s_td :: span ++ o ++ [OClose], cls1))
+      else
+        let '(a, cls1) := style_attr inline fst_ cls in
+        bind (html inner SNone cls1) (fun o cls2 => Some (OOpen s_td :: span ++ a ++ o ++ [OClose], cls2))
+  | _ => bind (html d SNone cls) (fun o cls1 => Some (OOpen s_td :: o ++ [OClose], cls1))
+  end.
 
-(* toHtml(v, style) and toTD(d); the class list is threaded through *)
-Fixpoint to_html (v : hval) (st : sty) (cls : list str) {struct v} : list op * list str :=
-  let to_td (d : hval) (cls : list str) : list op * list str :=
-    match d with
-    | HFmt cell cs fst_ inner =>
-        let span := if 1 <? cs then [OAttr s_colspan (itoa cs)] else [] in
-        if is_HL inner && negb cell then
-          let '(o, cls1) := to_html inner fst_ cls in
-          (OOpen s_td :: span ++ o ++ [OClose], cls1)
-        else
-          let '(a, cls1) := style_attr inline fst_ cls in
-          let '(o, cls2) := to_html inner SNone cls1 in
-          (OOpen s_td :: span ++ a ++ o ++ [OClose], cls2)
-    | _ =>
-        let '(o, cls1) := to_html d SNone cls in
-        (OOpen s_td :: o ++ [OClose], cls1)
-    end in
+(* toHtml(v, style); the class list is threaded through *)
+Fixpoint to_html (v : hval) (st : sty) (cls : list str) {struct v} : res :=
+  match st with
+  | SCloErr => None                                  (* cl.Eval(st, v) fails: return err *)
+  | _ =>
+  let to_td := to_td_with to_html in
   match v with
   | HFmt _ _ f inner => to_html inner f cls
   | HLnk l inner =>
-      let '(o, cls1) := to_html inner st cls in
-      (OOpen s_a :: OAttr s_href l :: o ++ [OClose], cls1)
-  | HFloat s => ([OWrite s], cls)
-  | HS s => html_string inline s st cls
+      bind (to_html inner st cls) (fun o cls1 => Some (OOpen s_a :: OAttr s_href l :: o ++ [OClose], cls1))
+  | HFloat s => Some ([OWrite s], cls)
+  | HS s => Some (html_string inline s st cls)
   | HM l =>
       let '(a, cls0) := style_attr inline st cls in
-      let '(rows, clsN) :=
-        (fix rows (l : list (str * (list str -> list op * list str))) (cls : list str) : list op * list str :=
-           match l with
-           | [] => ([], cls)
-           | (k, f) :: r =>
-               let '(o, cls1) := f cls in
-               let '(os, cls2) := rows r cls1 in
-               (OOpen s_tr :: OOpen s_td :: OWrite k :: OWrite [58] :: OClose :: o ++ OClose :: os, cls2)
-           end)
-          (sort_keys (map (fun kv => (fst kv, to_td (snd kv))) l)) cls0 in
-      (OOpen s_table :: a ++ rows ++ [OClose], clsN)
+      bind (map_rows (sort_keys (map (fun kv => (fst kv, to_td (snd kv))) l)) cls0) (fun rows clsN =>
+      Some (OOpen s_table :: a ++ rows ++ [OClose], clsN))
   | HL items =>
-      if has_plain st then
-        (fix each (l : list hval) (cls : list str) : list op * list str :=
-           match l with
-           | [] => ([], cls)
-           | x :: r =>
-               let '(o, cls1) := to_html x SNone cls in
-               let '(os, cls2) := each r cls1 in
-               (o ++ os, cls2)
-           end) items cls
+      if has_plain st then plain_each (fun x => to_html x SNone) items cls
       else
         match items with
-        | [] => ([], cls)
+        | [] => Some ([], cls)
         | first :: _ =>
             let '(a, cls0) := style_attr inline st cls in
-            if is_HL first then
-              (* tableExporter *)
-              let '(rows, clsN) :=
-                (fix rows (l : list hval) (row : N) (cls : list str) : list op * list str :=
-                   match l with
-                   | [] => ([], cls)
-                   | x :: r =>
-                       if row <=? maxl then
-                         let '(cells, cls1) :=
-                           match x with
-                           | HL cols =>
-                               (fix cells (c : list hval) (col : N) (cls : list str) : list op * list str :=
-                                  match c with
-                                  | [] => ([], cls)
-                                  | y :: c' =>
-                                      if col <=? maxl then
-                                        let '(o, cls1) := to_td y cls in
-                                        let '(os, cls2) := cells c' (col + 1) cls1 in
-                                        (o ++ os, cls2)
-                                      else (more_td, cls)
-                                  end) cols 1 cls
-                           | _ => if 1 <=? maxl then to_td x cls else (more_td, cls)
-                           end in
-                         let '(os, cls2) := rows r (row + 1) cls1 in
-                         (OOpen s_tr :: cells ++ OClose :: os, cls2)
-                       else (OOpen s_tr :: more_td ++ [OClose], cls)
-                   end) items 1 cls0 in
-              (OOpen s_table :: a ++ rows ++ [OClose], clsN)
-            else
-              (* simpleListExporter *)
-              let '(rows, clsN) :=
-                (fix rows (l : list hval) (i : N) (cls : list str) : list op * list str :=
-                   match l with
-                   | [] => ([], cls)
-                   | x :: r =>
-                       let num := [OOpen s_td; OWrite (itoa i); OWrite [46]; OClose] in
-                       if i <=? maxl then
-                         let '(o, cls1) := to_td x cls in
-                         let '(os, cls2) := rows r (i + 1) cls1 in
-                         (OOpen s_tr :: num ++ o ++ OClose :: os, cls2)
-                       else (OOpen s_tr :: num ++ more_td ++ [OClose], cls)
-                   end) items 1 cls0 in
-              (OOpen s_table :: a ++ rows ++ [OClose], clsN)
+            bind (if is_HL first then table_rows maxl to_td items 1 cls0      (* tableExporter *)
+                  else simple_rows maxl to_td items 1 cls0)                   (* simpleListExporter *)
+                 (fun rows clsN => Some (OOpen s_table :: a ++ rows ++ [OClose], clsN))
         end
+  end
   end.
 
 End ToHtml.
 
 Definition html_cfg (tt ta : esc_table) : wcfg := mkCfg true true tt ta.
 
-(* ToHtml(v, maxListSize, nil, inlineStyle): markup and the styles of the class list *)
-Definition to_html_doc (tt ta : esc_table) (maxl : N) (inline : bool) (v : hval) : option (list N * list str) :=
-  let '(ops, cls) := to_html (if maxl <? 1 then 1 else maxl) inline v SNone [] in
-  match run (html_cfg tt ta) w_init ops with
-  | Some (out, _) => Some (out, cls)
-  | None => None
+Inductive hout :=
+| HOk (out : list N) (cls : list str)     (* markup and the styles of the class list *)
+| HError                                  (* ToHtml returns an error (and no markup) *)
+| HPanic.                                 (* the writer panics (recovered by ToHtml into an error) *)
+
+(* ToHtml(v, maxListSize, nil, inlineStyle) *)
+Definition to_html_doc (tt ta : esc_table) (maxl : N) (inline : bool) (v : hval) : hout :=
+  match to_html (if maxl <? 1 then 1 else maxl) inline v SNone [] with
+  | None => HError
+  | Some (ops, cls) =>
+      match run (html_cfg tt ta) w_init ops with
+      | Some (out, _) => HOk out cls
+      | None => HPanic
+      end
   end.
 
 (* the constant element and attribute names of ToHtml *)
@@ -242,3 +277,70 @@ Fixpoint names_in (es ats : list str) (n : node) : bool :=
   | El name a kids =>
       mem_str name es && forallb (fun kv => mem_str (fst kv) ats) a && forallb (names_in es ats) kids
   end.
+
+(* ====================================================================== *)
+(*  Specification side                                                    *)
+(* ====================================================================== *)
+
+(* element and attribute names are ToHtml's constants *)
+Definition hnames : node -> bool := names_in html_elems html_attrs.
+
+(* if maxListSize < 1 { maxListSize = 1 } *)
+Definition eff_max (maxl : N) : N := if maxl <? 1 then 1 else maxl.
+
+(* all strings of the value (texts, keys, link targets, style strings, css keys and values) are legal XML characters *)
+Definition legal_sty (st : sty) : bool :=
+  match st with
+  | SNone | SCloErr => true
+  | SStr s => legal s
+  | SMap l => forallb (fun kv => legal (fst kv) && legal (snd kv)) l
+  end.
+
+Fixpoint legal_h (v : hval) : bool :=
+  match v with
+  | HS s | HFloat s => legal s
+  | HL l => forallb legal_h l
+  | HM l => forallb (fun kv => legal (fst kv) && legal_h (snd kv)) l
+  | HFmt _ _ st v => legal_sty st && legal_h v
+  | HLnk l v => legal l && legal_h v
+  end.
+
+(* no plainList style anywhere: plainList writes list elements side by side, i.e. mixed content, into which
+   PrettyPrint puts its line breaks and indentation *)
+Fixpoint pfree (v : hval) : bool :=
+  match v with
+  | HS _ | HFloat _ => true
+  | HL l => forallb pfree l
+  | HM l => forallb (fun kv => pfree (snd kv)) l
+  | HFmt _ _ st v => negb (has_plain st) && pfree v
+  | HLnk _ v => pfree v
+  end.
+
+(* when rendering must fail: toHtml(v, st) reaches, within the maxListSize cut-offs, a value whose style is a
+   failing closure.  [fails v st]: toHtml(v, st);  [fails_td d]: toTD(d). *)
+Section Fails.
+Variable maxl : N.
+
+Inductive fails : hval -> sty -> Prop :=
+| F_here : forall v, fails v SCloErr
+| F_fmt : forall c cs f inner st, fails inner f -> fails (HFmt c cs f inner) st
+| F_lnk : forall l inner st, fails inner st -> fails (HLnk l inner) st
+| F_map : forall l k e st, In (k, e) l -> fails_td e -> fails (HM l) st
+| F_plain : forall items e st, has_plain st = true -> In e items -> fails e SNone -> fails (HL items) st
+| F_list : forall items first i e st, has_plain st = false ->
+    nth_error items 0 = Some first -> is_HL first = false ->
+    nth_error items i = Some e -> N.of_nat i < maxl -> fails_td e -> fails (HL items) st
+| F_row : forall items first r x st, has_plain st = false ->
+    nth_error items 0 = Some first -> is_HL first = true ->
+    nth_error items r = Some x -> N.of_nat r < maxl -> is_HL x = false -> fails_td x -> fails (HL items) st
+| F_cell : forall items first r cols c y st, has_plain st = false ->
+    nth_error items 0 = Some first -> is_HL first = true ->
+    nth_error items r = Some (HL cols) -> N.of_nat r < maxl ->
+    nth_error cols c = Some y -> N.of_nat c < maxl -> fails_td y -> fails (HL items) st
+with fails_td : hval -> Prop :=
+| T_list : forall cs f inner, is_HL inner = true -> fails inner f -> fails_td (HFmt false cs f inner)
+| T_other : forall cell cs f inner, is_HL inner && negb cell = false -> fails inner SNone ->
+    fails_td (HFmt cell cs f inner)
+| T_plain : forall d, (match d with HFmt _ _ _ _ => false | _ => true end) = true -> fails d SNone -> fails_td d.
+
+End Fails.
